@@ -46,6 +46,7 @@ class Ctx:
     def merge_stats(self, st):
         for k, v in (st or {}).items(): self.count(k, v)
     def exe(self, config="asan", shared=False, main="harness.cpp"):
+        if config == "asan" and os.environ.get("VERIF_COVERAGE") == "1": config = "cov"    # tools/coverage.py: measure, verdict ignored
         key = (config, shared, main)
         if key not in self.exes:
             e, err = build.build_harness(config, shared, main)
